@@ -1,6 +1,7 @@
 from dataclasses import dataclass
 from functools import partial
 from functools import reduce
+from keyword import iskeyword
 from operator import attrgetter
 from typing import TYPE_CHECKING
 from typing import Any
@@ -108,7 +109,11 @@ class Listeners:
             spec (CallbackSpec): A spec to be resolved.
             registry (callable): A callable that will be used to store the resolved callables.
         """
-        if not spec.may_contain_boolean_expression:
+        if not spec.may_contain_boolean_expression or (
+            spec.func.isidentifier() and not iskeyword(spec.func)
+        ):
+            # A plain name is not an expression: every provider of the name gets its own
+            # guard, so the expected value (cond / unless) applies to each of them.
             yield from self.search(spec)
             return
 
